@@ -469,6 +469,12 @@ func rdfaPreds(doc *Node, base string) []string {
 				}
 			}
 		}
+		_, hasProp := n.Attr("property")
+		_, hasRel := n.Attr("rel")
+		_, hasIn := n.Attr("inlist")
+		if hasProp && hasRel && hasIn {
+			add("rdfa-inlist-rel-and-property")
+		}
 		for _, c := range n.Kids {
 			walk(c)
 		}
